@@ -175,6 +175,21 @@ theorem C12_crash_atomic_plain_partial (src : Tree) (outs rm : List Path) (fs0 :
 
 -- non-vacuity of the hypothesis: a fresh key, and an old entry with two files
 example : LeafOuts FS.empty [["a"], ["d"]] := by intro _ _ _ _ _; rfl
+/-- an old entry holding the two files `a` and `b` (and nothing below them) -/
+def fsTwoFiles : FS := fun r p => if r = .final ∧ (p = ["a"] ∨ p = ["b"]) then some (.file [1] false) else none
+example : LeafOuts fsTwoFiles [["a"], ["b"]] := by
+  intro o ho p hp hne
+  simp at ho
+  unfold fsTwoFiles
+  have hnot : ¬ (p = ["a"] ∨ p = ["b"]) := by
+    rcases ho with rfl | rfl
+    · rintro (h | h)
+      · exact hne h
+      · subst h; revert hp; decide
+    · rintro (h | h)
+      · subst h; revert hp; decide
+      · exact hne h
+  simp [hnot]
 
 /-- The tree used by the witnesses: one output directory `d` holding `x` and `y`. -/
 def wSrc : Tree := [(["d"], .dir), (["d", "x"], .file [120] false), (["d", "y"], .file [121] false)]
@@ -246,12 +261,13 @@ theorem C12_concurrent_fresh_compressed (src : Tree) (hsrc : srcOK [] src = true
     as a hit (`enoentIsMiss = false`, the value extracted from the pinned tree): the key holds a complete
     tarball, the retrieve sees it exist, the store removes it, the retrieve's `os.Open` fails with ENOENT — the
     result is a HIT that restored nothing. -/
-theorem C12_witness_concurrent_compressed :
+theorem C12_witness_concurrent_compressed (hfact : C12.enoentIsMiss = false) :
     ∃ (fs0 : CFS) (src : Tree) (outs : List Path) (a b : Nat), a ≤ b ∧
       retrC fs0 outs = .hit src ∧ src ≠ [] ∧
-      retrieveC2 false C12.damagedIsMiss (applyOpsC fs0 ((storeC src outs).take a)) (applyOpsC fs0 ((storeC src outs).take b)) outs
-        = .hit [] :=
-  ⟨applyOpsC CFS.empty (storeC [(["a"], .file [104] false)] [["a"]]), [(["a"], .file [104] false)], [["a"]], 0, 1,
+      retrieveC2 C12.enoentIsMiss C12.damagedIsMiss (applyOpsC fs0 ((storeC src outs).take a)) (applyOpsC fs0 ((storeC src outs).take b)) outs
+        = .hit [] := by
+  rw [hfact]
+  exact ⟨applyOpsC CFS.empty (storeC [(["a"], .file [104] false)] [["a"]]), [(["a"], .file [104] false)], [["a"]], 0, 1,
     by decide, by decide, by decide, by decide⟩
 
 /-- With the error reported as a miss the compressed interleaving holds at full strength, old entry or not. -/
@@ -291,7 +307,15 @@ theorem C12_concurrent_compressed_if_enoent_is_miss (src : Tree) (hsrc : srcOK [
         simp only [h2] at hB ⊢
         exact hB
 
-/-- This run's /repo: the value of the switch. -/
-theorem C12_enoent_switch : C12.enoentIsMiss = false ∨ C12.enoentIsMiss = true := by decide
+/-- The same statement for the value read from /repo on this run: as soon as the extracted fact says that a
+    not-exist error of the archive read is a miss, the compressed interleaving holds at full strength (exactly one
+    of this theorem and `C12_witness_concurrent_compressed` has a true hypothesis on any given tree). -/
+theorem C12_concurrent_compressed_if_fact (hfact : C12.enoentIsMiss = true) (src : Tree) (hsrc : srcOK [] src = true)
+    (outs : List Path) (fs0 : CFS) (a b : Nat) :
+    let st := fun n => applyOpsC fs0 ((storeC src outs).take n)
+    retrieveC2 C12.enoentIsMiss C12.damagedIsMiss (st a) (st b) outs = .miss ∨
+      retrieveC2 C12.enoentIsMiss C12.damagedIsMiss (st a) (st b) outs = retrC fs0 outs ∨
+      retrieveC2 C12.enoentIsMiss C12.damagedIsMiss (st a) (st b) outs = retrC (applyOpsC fs0 (storeC src outs)) outs := by
+  rw [hfact]; exact C12_concurrent_compressed_if_enoent_is_miss src hsrc outs fs0 a b
 
 end PlzVerif.Props.C12
